@@ -21,6 +21,26 @@ CHECKS = {
         text="Proved in Lean 4: update/update_all change exactly the selected points according to Spec.upd (replace time/measurement, merge tags/fields key by key, unset afterwards), never move or drop points, count the points whose content changed, and preserve the invariant; merge lemmas (never drops keys, unset after set) proved on the Spec. Tied to the code by differential runs with static and callable arguments.",
         note=TB + "Guard: measurement argument != '' (known finding); what the update produces must be storable (OpOK). User callables are arbitrary Lean functions in the theorems and a finite vocabulary in the runs.",
         tech="Lean 4 refinement proof + history-level differential correspondence", ref="DESIGN.md 5/C03"),
+    "C04": dict(
+        text="Proved in Lean 4 over a two-file I/O model: after the complete step list of every operation the rows the OS holds for the database path are exactly the new contents (without flush_on_insert: once the handle is closed or the next read seeks), appends land at end of file wherever a read left the handle, the temp file is gone. The step lists are tied to the code by comparing, for every operation of generated histories, the I/O calls recorded by run-time proxies with the model's prediction; the real file is decoded by an independent reader after every operation in an encodings x dialects x flush grid with adversarial strings, and after close / read-only reopen.",
+        note=TB + "Rows are abstract in the I/O model (their text is C05); text codecs and the csv module are trusted (one codec / dialect on both sides); OS semantics as stated in Model/IO.lean.",
+        tech="Lean 4 proof over an I/O step model + recorded-trace correspondence + independent file decoding", ref="DESIGN.md 5/C04"),
+    "C12": dict(
+        text="Partial. Proved in Lean 4 for every prefix of the I/O steps of insert / remove / update / remove_all / reads: what survives a process death (only what reached the OS) is the old or the new contents (insert_multiple: old plus a prefix); a counter-example theorem shows the truncating copy of the pinned commit is not atomic. Validated by recorded traces and by really killing a forked child (os._exit) at every I/O boundary of sampled operations and decoding the file it leaves.",
+        note=TB + "Partial: power-loss durability (fsync), torn single writes of rows larger than the stdio buffer and file-system specifics are outside the model; os.replace atomicity is trusted.",
+        tech="Lean 4 proof over crash prefixes of an I/O step model + real process deaths at every recorded boundary", ref="DESIGN.md 5/C12"),
+    "C13": dict(
+        text="Partial. Proved in Lean 4: after any prefix of an operation's I/O steps followed by the finally-cleanup the database file holds the old or the new contents (inserts: old plus a prefix, counting rows still buffered) and no temp file remains. On the real code an OSError is injected at every I/O call index of sampled operations (before effect; after effect for flush/fsync/close): the error must reach the caller, the file must decode to old/new, and the live object must answer consistently with its storage or fail.",
+        note=TB + "Partial as C12. The live-object clause (index invalidated or handle closed) is validated by fault injection, not proved.",
+        tech="Lean 4 proof over fault prefixes of an I/O step model + OSError injection at every recorded call", ref="DESIGN.md 5/C13"),
+    "C15": dict(
+        text="Partial. (T) over the access-mode tuples and decorator stacks regenerated from the source, by kernel evaluation: in mode 'r' every mutating method's gate raises before temp_storage_op, i.e. before any I/O; every query/getter is a read_op. (C) proved over the step lists: reads make no mutating call, a no-op remove/update never touches the database file, every temp file is removed also when the operation raises. On the real code: file bytes and listings of the temp and database directories before/after every call, access modes r/r+/a/w+.",
+        note=TB + "Partial: the OS is not modelled beyond the two files; directory listings are observations of the real runs.",
+        tech="Lean 4 proof over extracted mode/decorator tables and I/O step model + byte/listing observation", ref="DESIGN.md 5/C15"),
+    "C16": dict(
+        text="Partial. Proved in Lean 4: the I/O calls of an insert are a function of the inserted rows only (5 per point, 2 without flush_on_insert), contain no read and no rewrite, the file afterwards is the previous content followed by the new rows at every intermediate point. Recorded traces of the real code are compared with the prediction for every insert of generated histories and for database sizes 0..1000 (5000 thorough) after reads that leave the handle at start / middle / end; file bytes before are a prefix of file bytes after.",
+        note=TB + "Partial: cost is counted in Python-level I/O calls, not syscalls or time.",
+        tech="Lean 4 proof over an I/O step model + recorded-trace correspondence across database sizes", ref="DESIGN.md 5/C16"),
     "C05": dict(
         text="Row-level round trip proved in Lean 4 for all strings in every slot and both prefix styles over constants and sniff positions regenerated from point.py; injectivity as a corollary; the cases the on-disk format cannot carry are an explicit guard (Codable) with counter-example theorems, recorded as known findings. The codec model is compared cell by cell with the real serializer, and whole files are round-tripped through a real CSVStorage in 6 dialects x 4 encodings.",
         note=TB + "str(float)/float(), isoformat/fromisoformat, the csv module and text codecs are parameters with stated laws (trusted stdlib behaviour), supplied to the model as tables computed by the real stdlib.",
